@@ -1,1 +1,146 @@
-/- C12 — property theorems (to be written) -/
+/-
+  C12 — equality, emptiness and counting depend on content only.
+  Property theorems only; helpers in FtProofs/Lemmas/{Content,EqLemmas}.lean.
+-/
+import FtProofs.Lemmas.EqLemmas
+set_option linter.unusedSectionVars false
+set_option linter.unusedSimpArgs false
+namespace Ft
+open StrictTotal
+
+section
+variable {κ ν : Type} [LT κ] [DecidableRel (α := κ) (· < ·)] [DecidableEq κ] [StrictTotal κ] [DecidableEq ν]
+
+/-- auxiliary statement for payloads that a compressed rank presents (non-empty ones) -/
+private theorem eq_iff_content_nonempty (da db : ν) : ∀ (d : Nat) (x y : Tree κ ν d),
+    WF d x → WF d y → isEmpty da d x = false → isEmpty db d y = false →
+    (fiberEq da db d x y = true ↔ content da d x = content db d y)
+  | 0, x, y, _, _, hx, hy => by
+    have hx' : (show ν from x) ≠ da := by simpa [isEmpty] using hx
+    have hy' : (show ν from y) ≠ db := by simpa [isEmpty] using hy
+    show decide ((show ν from x) = (show ν from y)) = true ↔
+      (if (show ν from x) = da then [] else [([], (show ν from x))]) =
+      (if (show ν from y) = db then [] else [([], (show ν from y))])
+    simp [hx', hy']
+    constructor
+    · intro h; rw [h]
+    · intro h; exact (Prod.mk.inj h).2
+  | d + 1, a, b, ha, hb, _, _ => by
+    show (orMerge (present da d a) (present db d b)).all (eqRow (fiberEq da db d)) = true ↔ _
+    rw [all_eqRow_iff_groups (fiberEq da db d) (content da d) (content db d)]
+    · show groups da d a = groups db d b ↔ _
+      rw [content_eq_flat_groups, content_eq_flat_groups]
+      constructor
+      · intro h; rw [h]
+      · exact flat_injective _ _ (groups_sorted ha.sorted) (groups_sorted hb.sorted)
+          groups_nonempty groups_nonempty
+    · intro e he f hf
+      have he' := mem_present.1 he
+      have hf' := mem_present.1 hf
+      exact eq_iff_content_nonempty da db d e.2 f.2 (ha.sub e he'.1) (hb.sub f hf'.1) he'.2 hf'.2
+
+/-- **C12, equality.** Two well-formed fibers compare equal exactly when they hold the same
+    non-default leaf values at the same points (each side relative to its own default) —
+    whatever explicit defaults or empty sub-fibers they carry. -/
+theorem eq_iff_content (da db : ν) (d : Nat) (a b : Tree κ ν (d + 1))
+    (ha : WF (d + 1) a) (hb : WF (d + 1) b) :
+    fiberEq da db (d + 1) a b = true ↔ content da (d + 1) a = content db (d + 1) b := by
+  show (orMerge (present da d a) (present db d b)).all (eqRow (fiberEq da db d)) = true ↔ _
+  rw [all_eqRow_iff_groups (fiberEq da db d) (content da d) (content db d)]
+  · show groups da d a = groups db d b ↔ _
+    rw [content_eq_flat_groups, content_eq_flat_groups]
+    constructor
+    · intro h; rw [h]
+    · exact flat_injective _ _ (groups_sorted ha.sorted) (groups_sorted hb.sorted)
+        groups_nonempty groups_nonempty
+  · intro e he f hf
+    have he' := mem_present.1 he
+    have hf' := mem_present.1 hf
+    exact eq_iff_content_nonempty da db d e.2 f.2 (ha.sub e he'.1) (hb.sub f hf'.1) he'.2 hf'.2
+
+/-- equality is reflexive (hence a deep copy — the same model value — equals its original) -/
+theorem eq_refl (da : ν) (d : Nat) (a : Tree κ ν (d + 1)) (ha : WF (d + 1) a) :
+    fiberEq da da (d + 1) a a = true := (eq_iff_content da da d a a ha ha).2 rfl
+
+theorem eq_symm (da db : ν) (d : Nat) (a b : Tree κ ν (d + 1)) (ha : WF (d + 1) a) (hb : WF (d + 1) b) :
+    fiberEq da db (d + 1) a b = fiberEq db da (d + 1) b a := by
+  rw [Bool.eq_iff_iff, eq_iff_content da db d a b ha hb, eq_iff_content db da d b a hb ha]
+  exact eq_comm
+
+theorem eq_trans (da db dc : ν) (d : Nat) (a b c : Tree κ ν (d + 1))
+    (ha : WF (d + 1) a) (hb : WF (d + 1) b) (hc : WF (d + 1) c)
+    (h1 : fiberEq da db (d + 1) a b = true) (h2 : fiberEq db dc (d + 1) b c = true) :
+    fiberEq da dc (d + 1) a c = true := by
+  rw [eq_iff_content _ _ d _ _ ha hb] at h1
+  rw [eq_iff_content _ _ d _ _ hb hc] at h2
+  rw [eq_iff_content _ _ d _ _ ha hc, h1, h2]
+
+/-- **emptiness**: a tree is empty exactly when it has no non-default point -/
+theorem isEmpty_iff (dflt : ν) (d : Nat) (t : Tree κ ν d) :
+    isEmpty dflt d t = true ↔ content dflt d t = [] := isEmpty_iff_content dflt d t
+
+/-- **counting**: the value count is the number of non-default points -/
+theorem countValues_eq (dflt : ν) (d : Nat) (t : Tree κ ν d) :
+    countValues dflt d t = (content dflt d t).length := countValues_eq_length dflt d t
+
+/-- **pruning** keeps the content … -/
+theorem nonEmpty_content (dflt : ν) : ∀ (d : Nat) (t : Tree κ ν d),
+    content dflt d (nonEmpty dflt d t) = content dflt d t
+  | 0, _ => rfl
+  | d + 1, f => by
+    rw [content_present dflt d f, content_succ]
+    show List.flatMap _ (((show List (κ × Tree κ ν d) from f).filter (fun e => !isEmpty dflt d e.2)).map
+      (fun e => (e.1, nonEmpty dflt d e.2))) = List.flatMap _ (present dflt d f)
+    rw [List.flatMap_map]
+    unfold present
+    congr 1
+    funext e
+    simp only [nonEmpty_content dflt d e.2]
+
+theorem isEmpty_nonEmpty (dflt : ν) (d : Nat) (t : Tree κ ν d) :
+    isEmpty dflt d (nonEmpty dflt d t) = isEmpty dflt d t := by
+  rw [Bool.eq_iff_iff, isEmpty_iff_content, isEmpty_iff_content, nonEmpty_content]
+
+/-- … leaves no explicit default and no empty sub-fiber … -/
+theorem nonEmpty_canonical (dflt : ν) : ∀ (d : Nat) (t : Tree κ ν d),
+    Canonical dflt d (nonEmpty dflt d t)
+  | 0, _ => trivial
+  | d + 1, f => by
+    intro e he
+    obtain ⟨x, hx, rfl⟩ := List.mem_map.1 he
+    have hx' := (List.mem_filter.1 hx).2
+    refine ⟨?_, nonEmpty_canonical dflt d x.2⟩
+    show isEmpty dflt d (nonEmpty dflt d x.2) = false
+    rw [isEmpty_nonEmpty]; simpa using hx'
+
+/-- … and stays well-formed -/
+theorem nonEmpty_wf (dflt : ν) : ∀ (d : Nat) (t : Tree κ ν d), WF d t → WF d (nonEmpty dflt d t)
+  | 0, _, _ => trivial
+  | d + 1, f, h => by
+    refine ⟨?_, ?_⟩
+    · exact sorted_map_key _ (fun e => nonEmpty dflt d e.2) (present_sorted h.sorted)
+    · intro e he
+      obtain ⟨x, hx, rfl⟩ := List.mem_map.1 he
+      exact nonEmpty_wf dflt d x.2 (h.sub x (List.mem_filter.1 hx).1)
+
+/-- the pruned copy is an equal tree -/
+theorem nonEmpty_eq (dflt : ν) (d : Nat) (a : Tree κ ν (d + 1)) (ha : WF (d + 1) a) :
+    fiberEq dflt dflt (d + 1) (nonEmpty dflt (d + 1) a) a = true :=
+  (eq_iff_content dflt dflt d _ a (nonEmpty_wf dflt (d + 1) a ha) ha).2 (nonEmpty_content dflt (d + 1) a)
+
+end
+
+/-! ### non-vacuity: a depth-2 tree with an explicit default and an empty sub-fiber satisfies
+the hypotheses (`WF`), and the functions behave non-trivially on it (`#guard` lines are tests). -/
+section
+private def exA : Tree Int Int 2 := [(0, [(1, (5 : Int)), (2, (0 : Int))]), (3, []), (4, [(0, (7 : Int))])]
+private def exB : Tree Int Int 2 := [(0, [(1, (5 : Int))]), (4, [(0, (7 : Int)), (9, (0 : Int))])]
+example : WF 2 exA := (wfB_iff 2 exA).1 (by decide)
+example : WF 2 exB := (wfB_iff 2 exB).1 (by decide)
+#guard fiberEq 0 0 2 exA exB
+#guard content 0 2 exA == [([0, 1], 5), ([4, 0], 7)]
+#guard countValues 0 2 exA == 2
+#guard !(isEmpty 0 2 exA)
+#guard canonicalB 0 2 (nonEmpty 0 2 exA) && !(canonicalB 0 2 exA)
+end
+end Ft
